@@ -118,6 +118,7 @@ class AppInst:
         self.pc = 0
         self.done = False
         self.got_disc = False
+        self.self_cancel = False
 
     def log(self, e: str, **kw: Any) -> None:
         self.sess.trace.log(e, app=self.rid, **kw)
@@ -197,6 +198,12 @@ class AppInst:
             return True
         elif name == "raise":
             raise PuppetError("scripted failure")
+        elif name == "cancel":
+            # the application ends through cancellation of its own task (e.g. it awaited something
+            # that was cancelled); only the asyncio worker lets a task do that to itself
+            self.self_cancel = True
+            if not await self.sess.env.cancel_self():
+                return True
         elif name == "remote":
             # remote controlled: the harness supplies one op per token
             queue = self.sess.remote_ops.setdefault(self.rid.split("#")[0], [])
@@ -225,6 +232,8 @@ class AppInst:
             raise
         except BaseException as error:  # cancellation (asyncio.CancelledError / trio.Cancelled)
             how = "cancelled" if "Cancel" in type(error).__name__ else "exc:" + type(error).__name__
+            if how == "cancelled" and self.self_cancel:
+                how = "self-cancel"
             raise
         finally:
             self.done = True
